@@ -29,6 +29,7 @@ each argument, auto-escape on and off):
 from __future__ import annotations
 
 import itertools
+import time
 import warnings
 from typing import Any, Iterable
 
@@ -991,7 +992,10 @@ def render_partial(src: str, parts: dict[str, str], data: dict[str, Any], pol: s
 
 def main(chk: C.Check, build: C.Build) -> None:
     warnings.simplefilter("ignore")
+    t0 = time.time()
+    phase: dict[str, float] = {}
     proofs_ok = C.proof_stage(chk, build, NEEDED)
+    phase["proof_audit"] = round(time.time() - t0, 1)
     thorough = chk.tier == "thorough"
     r = C.rng("c16")
 
@@ -1046,8 +1050,29 @@ def main(chk: C.Check, build: C.Build) -> None:
                       "model": f"(let p := {cp} in let d := {cd} in map (fun pol => render pol {FUEL}%nat p d) [PDefault; PStrict; PFalsy; PProbe])",
                       "inside": f"(let p := {cp} in let d := {cd} in forallb (fun pol => inside_s (render pol {FUEL}%nat p d)) [PDefault; PStrict; PFalsy; PProbe])",
                       "replay": {"source": src, "data": data, "deleted": [list(x) for x in sub], "implementation": outs}})
-        if len(samples) < 4 and outs["P"][0] == "miss" and len(src) < 120 and r.random() < 0.02:
-            samples.append({"source": src, "deleted": [list(x) for x in sub], "outcomes": outs})
+        if outs["P"][0] == "miss" and len(src) < 120 and (len(samples) < 2 or (len(samples) < 6 and r.random() < 0.01)):
+            samples.append({"source": src, "deleted": [list(x) for x in sub], "data_keys": sorted(data), "outcomes": outs})
+
+    phase["template_runs"] = round(time.time() - t0, 1)
+    # 1b. roots_b (the vocabulary of c16_render_depends_only_on_mentioned_roots) against the
+    # engine's own static analysis: the root names of Template.analyze().variables
+    ritems = []
+    seen_src: set[str] = set()
+    for prog, _d, _s, _ in cases:
+        src = p_block(prog)
+        if src in seen_src or (not thorough and len(seen_src) >= 250) or (thorough and len(seen_src) >= 2500):
+            continue
+        seen_src.add(src)
+        try:
+            an = _env("D").from_string(src).analyze()
+            names = sorted({str(v).split(".")[0].split("[")[0] for v in an.variables})
+        except Exception as e:  # noqa: BLE001
+            names = ["<analysis failed: " + type(e).__name__ + ">"]
+        cn = C.clist((cs(n) for n in names), "str")
+        ritems.append({"case": f"(let rs := roots_b {c_block(prog)} in let ns := {cn} in "
+                               "forallb (fun x => mem_str x ns) rs && forallb (fun x => mem_str x rs) ns)",
+                       "model": f"roots_b {c_block(prog)}",
+                       "replay": {"source": src, "analysis_root_names": names}})
 
     # 2. kernel-level tie
     kitems = dunder_cases()
@@ -1068,7 +1093,9 @@ def main(chk: C.Check, build: C.Build) -> None:
         oracle(chk, src, {"data": data, "partials": parts}, outs, complete=complete)
         nbeyond += 1
 
+    phase["kernel_and_oracle_runs"] = round(time.time() - t0, 1)
     defs = str_defs() + DEFS_CASE
+    C.correspond(chk, "c16r", IMPORTS, defs, ritems, what="roots_b", shard=300)
     C.correspond(chk, "c16k", IMPORTS, defs, kitems, what="Undefined primitives", shard=600)
     C.correspond(chk, "c16", IMPORTS, defs, items, what="Undefined.render", shard=250)
     # how many template cases did the model decide (not [outside])?  measured on
@@ -1076,23 +1103,28 @@ def main(chk: C.Check, build: C.Build) -> None:
     probe = [it for it in items if r.random() < (0.25 if thorough else 0.35)]
     rc = C.run_cases("c16in", IMPORTS, defs, [it["inside"] for it in probe], shard=250)
     inside = len(probe) - len(rc["bad"])
+    for e in rc["errors"]:
+        chk.notes.append("coq case error (verdict probe): " + e[:300])
+    phase["coq_cases"] = round(time.time() - t0, 1)
     C.proofs_verdict(chk, proofs_ok)
 
     chk.coverage.update({
-        "evaluations": len(cases) * 4 + len(kitems) + nbeyond * 4,
+        "evaluations": len(cases) * 4 + len(kitems) + len(ritems) + nbeyond * 4,
         "distinct_nontrivial": len(nontrivial),
         "rule": ("(template, data) pairs of the modelled fragment: every modelled use site with a missing value (each modelled filter x "
                  "left value x argument, each comparison operator x operand pair, truthiness / ternary / case / for iterable / for limit / "
                  "assign / capture / nested path segment) plus seeded random programs (depth <= "
                  f"{3 if thorough else 2}); for each, the base data and the data with every subset of the resolvable references deleted "
-                 f"(exhaustive for <= {4} references in random programs, <= {4 if thorough else 2} in site programs, seeded beyond); each pair rendered under Undefined, "
+                 f"(exhaustive for <= 4 references in random programs, <= {3 if thorough else 2} in site programs, seeded beyond); each pair rendered under Undefined, "
                  "StrictUndefined, FalsyStrictUndefined and the probe. non-trivial = the probe saw a failed lookup (some policy had to handle an undefined)"),
         "samples": samples,
         "distribution": dist,
         "template_cases": len(cases),
         "template_cases_probed_for_verdict": len(probe),
         "template_cases_decided_by_model": inside,
+        "phase_end_s": phase,
         "kernel_cases": len(kitems),
+        "roots_cases": len(ritems),
         "oracle_only_sources": nbeyond,
         "exhaustive": False,
         "tier_proved": "interpreter of the C16 fragment (all programs, data and fuel)",
